@@ -351,7 +351,7 @@ Definition src_compile_script : list string :=  [
    "script_dir = os.path.dirname(script_path)"; 
    "sys.path.insert(0, script_dir)"; 
    "loaded_before = set(sys.modules)"; 
-   "try: ;     return _compile_script(script_path) ; finally: ;     own_dir = os.path.abspath(script_dir) ;     for name in set(sys.modules) - loaded_before: ;         path = getattr(sys.modules[name], '__file__', None) ;         if path and os.path.dirname(os.path.abspath(path)) == own_dir: ;             del sys.modules[name] ;     if script_dir in sys.path: ;         sys.path.remove(script_dir)"].
+   "try: ;     return _compile_script(script_path) ; finally: ;     own_dir = os.path.abspath(script_dir) ;     loaded = set(sys.modules) - loaded_before ;     own = {name for name in loaded if '.' not in name and _found_in(sys.modules[name], own_dir)} ;     for name in loaded: ;         if name.split('.')[0] in own: ;             del sys.modules[name] ;     if script_dir in sys.path: ;         sys.path.remove(script_dir)"].
 
 Definition src_compile_string : list string :=  [
    "decoded_program = base64.b64decode(script).decode('utf-8')"; 
